@@ -10,6 +10,7 @@ VARIABLES st
 vars == <<st>>
 
 Ops == [op : {"Enroll"}, k : CertKeys] \cup [op : {"Remove"}, k : CertKeys] \cup {[op |-> "Reinit"]}
+       \cup {[op |-> "WaitOverlap"], [op |-> "RotateWait"], [op |-> "ExpireWait"]}
 
 Init == st = InitState([nidl |-> CfgNidl, base |-> CfgBase])
 Next == \E o \in Ops : LET out == Apply(st, o) IN out.res # "skip" /\ out.st # st /\ st' = out.st
